@@ -196,32 +196,7 @@ pub fn evaluate(sc: &CacheSc, h: &Hist, out: &RunOut) -> Vec<Violation> {
     }
   }
 
-  // ---- C13: capacity and cost accounting at quiescence ---------------------------------------
-  if let Some(fin) = &h.fin {
-    if fin.settled {
-      let sum: u64 = fin.residents.iter().map(|r| r.3).sum();
-      if fin.current_cost != sum {
-        vs.push(viol(
-          sc,
-          "C13",
-          "current_cost_drift",
-          &[("direction", if fin.current_cost > sum { "metric_high".into() } else { "metric_low".into() })],
-          format!("at quiescence after {} maintenance passes metrics().current_cost = {} but the resident entries cost {} ({:?})", fin.maintenance_passes, fin.current_cost, sum, fin.residents),
-        ));
-      }
-      if let Some(cap) = sc.capacity {
-        if sum > cap {
-          vs.push(viol(
-            sc,
-            "C13",
-            "capacity_exceeded_at_quiescence",
-            &[],
-            format!("capacity {cap} but resident entries cost {sum} at quiescence after {} maintenance passes ({:?}); metrics().current_cost = {}", fin.maintenance_passes, fin.residents, fin.current_cost),
-          ));
-        }
-      }
-    }
-  }
+  accounting_rules(sc, h, !no_expiry, &mut vs);
 
   // ---- C15: loader single-flight ------------------------------------------------------------
   if sc.loader != LoaderKind::None {
@@ -347,6 +322,49 @@ fn op_name(op: &COp) -> String {
 }
 
 /// Reference bookkeeping of the tracked set per shard, replayed over the proxy's call log.
+/// C13: capacity and cost accounting at quiescence (`may_hide`: the configuration can hold
+/// expired-but-uncollected entries, which are resident yet invisible to every read).
+pub fn accounting_rules(sc: &CacheSc, h: &Hist, may_hide: bool, vs: &mut Vec<Violation>) {
+  // ---- C13: capacity and cost accounting at quiescence ---------------------------------------
+  if let Some(fin) = &h.fin {
+    if fin.settled {
+      let sum: u64 = fin.residents.iter().map(|r| r.3).sum();
+      // Entries that are in the map but hidden from every read (expired, not yet collected) are
+      // resident too, so with expiry configured the gauge may exceed what iteration shows. The
+      // drain audit decides: after every key was removed the gauge must equal the cost of what
+      // is left (normally nothing; a background load may land late) - any drift survives it.
+      let left: u64 = fin.audit_left.iter().map(|r| r.3).sum();
+      let end_cost = fin.audit.last().map(|a| a.3).unwrap_or(fin.current_cost);
+      let drift_at_end = !fin.audit.is_empty() && end_cost != left;
+      let expect = if may_hide { fin.current_cost.max(sum) } else { sum };
+      if fin.current_cost != expect || fin.current_cost < sum || drift_at_end {
+        let high = if drift_at_end { (end_cost.wrapping_sub(left) as i64) > 0 } else { fin.current_cost > sum };
+        vs.push(viol(
+          sc,
+          "C13",
+          "current_cost_drift",
+          &[("direction", if high { "metric_high".into() } else { "metric_low".into() })],
+          format!(
+            "at quiescence after {} maintenance passes metrics().current_cost = {} and the visible resident entries cost {} ({:?}); removing every key afterwards left current_cost = {} with entries worth {} resident (audit {:?})",
+            fin.maintenance_passes, fin.current_cost, sum, fin.residents, end_cost as i64, left, fin.audit
+          ),
+        ));
+      }
+      if let Some(cap) = sc.capacity {
+        if expect > cap {
+          vs.push(viol(
+            sc,
+            "C13",
+            "capacity_exceeded_at_quiescence",
+            &[],
+            format!("capacity {cap} but resident entries cost {expect} at quiescence after {} maintenance passes ({:?}); metrics().current_cost = {}", fin.maintenance_passes, fin.residents, fin.current_cost),
+          ));
+        }
+      }
+    }
+  }
+}
+
 fn policy_contract(sc: &CacheSc, h: &Hist, vs: &mut Vec<Violation>) {
   if sc.default_policy || sc.policy == PolicyKind::Null {
     return;
